@@ -47,11 +47,11 @@ def plan(tier, seed):
     if tier == "quick":
         return [
             dict(seeds=seeds, operands=ops, small=small, acts=ACTS, lvl=1, dim=6, forms=forms, stride=1, ebound=20),
-            dict(seeds=seeds_q, operands=ops[:6], small=small, acts=ACTS, lvl=2, dim=4, forms=forms, stride=3,
+            dict(seeds=seeds_q[:10], operands=ops[:5], small=small, acts=ACTS, lvl=2, dim=4, forms=forms, stride=5,
                  ebound=20),
             dict(seeds=seeds, operands=ops, small=small, acts=ACTS | {"Sum3", "Product3"}, lvl=3, dim=4, forms=forms,
-                 stride=2, simulate=30, ebound=20),
-            dict(seeds=seeds_q, operands=ops[:6], small=small, acts=API, lvl=2, dim=4, scalars=sc, forms=forms,
+                 stride=2, simulate=12, ebound=20),
+            dict(seeds=seeds_q[:9], operands=ops[:5], small=small, acts=API, lvl=2, dim=4, scalars=sc[:4], forms=forms,
                  ebound=20),
         ]
     return [
